@@ -2,7 +2,7 @@
 import ast
 import copy
 
-from engine.astutil import U, calls, kwargs, single_defs, inline, walk_own, call_name, attr_tail, returns, enclosing_map, names_in, arg
+from engine.astutil import U, calls, kwargs, single_defs, inline, walk_own, call_name, attr_tail, returns, enclosing_map, names_in, arg, argv
 from engine.cfg import CFG
 from engine.norm import Norm, Poly, parse_expr
 from engine.repo import AnalysisError
@@ -634,10 +634,10 @@ def mean_polynomial(ctx, fq, sample="self"):
         e = lin[0]
 
     def at(x, N):
-        if isinstance(x, ast.Call) and isinstance(x.func, ast.Attribute) and x.func.attr == "get" and U(x.func.value) == "self" and len(x.args) == 2:
-            return Poly.atom(("G", x.args[0].value, U(x.args[1])))
+        if isinstance(x, ast.Call) and isinstance(x.func, ast.Attribute) and x.func.attr == "get" and U(x.func.value) == "self" and len(argv(x)) == 2:
+            return Poly.atom(("G", argv(x)[0].value, U(argv(x)[1])))
         if isinstance(x, ast.Call) and attr_tail(x) == "copy_array_with_control_treatments_set_to_zero":
-            col = U(x.args[1]).replace(" ", "")
+            col = U(argv(x)[1]).replace(" ", "")
             role = {"data.treatment_ids[:,0]": "dd1", "data.treatment_ids[:,1]": "dd2"}.get(col)
             if role is None:
                 raise AnalysisError(f"{f.site()}: gather by `{col}`")
